@@ -388,6 +388,28 @@ impl Ctx {
         ));
     }
 
+    /// The reference evaluation of this request did not complete within the step budget
+    /// (the pinned library has known non-terminating inputs), or completes only under some
+    /// hash keys. Such a call is not made at all: cutting it off on the simulated side would
+    /// unwind the calling thread only, while work the library may have handed to threads of
+    /// its own (scoped workers, a pool) would go on unbounded and the call would never
+    /// return — a hang produced by the harness, not by the library.
+    fn skip_incomplete(&self, op: usize, refres: &RefResult) -> bool {
+        let incomplete = refres.budget_sensitive
+            || refres.open == "Diverged"
+            || refres.open.starts_with("NoObject(Diverged");
+        if incomplete {
+            wlock(&self.world).rec.skipped_incomplete_reference += 1;
+            self.log(format!(
+                "t={} T{} skip #{} the reference does not complete within the step budget",
+                now(),
+                self.me(),
+                op
+            ));
+        }
+        incomplete
+    }
+
     fn skip(&self, op: usize, why: &str) {
         wlock(&self.world).rec.skipped_no_object += 1;
         self.log(format!("t={} T{} skip #{} {}", now(), self.me(), op, why));
@@ -418,6 +440,10 @@ impl Ctx {
             input: String::new(),
             repl: String::new(),
         };
+        let refres = self.reference(&req);
+        if self.skip_incomplete(op, &refres) {
+            return;
+        }
         self.log(format!(
             "t={} T{} invoke #{} compile slot={} {}",
             now(),
@@ -429,7 +455,6 @@ impl Ctx {
         self.begin_call(None);
         let (r, steps) = exec::guarded(self.crash_at(op, 0), || exec::compile(key));
         self.end_call();
-        let refres = self.reference(&req);
         let got = r.as_ref().map(exec::render_compile).map_err(|a| a.clone());
         self.check(
             op,
@@ -479,6 +504,10 @@ impl Ctx {
             input: input.to_string(),
             repl: repl.to_string(),
         };
+        let refres = self.reference(&req);
+        if self.skip_incomplete(op, &refres) {
+            return;
+        }
         self.log(format!(
             "t={} T{} invoke #{} obj{} {}",
             now(),
@@ -505,7 +534,6 @@ impl Ctx {
         });
         self.end_call();
         self.buf = buf;
-        let refres = self.reference(&req);
         self.check(
             op,
             None,
@@ -541,6 +569,9 @@ impl Ctx {
             req.show()
         ));
         let refres = self.reference(&req);
+        if self.skip_incomplete(op, &refres) {
+            return;
+        }
         self.begin_call(Some(&obj));
         let mut first_bad: Option<(usize, String)> = None;
         let mut first_sig: Option<u64> = None;
@@ -635,6 +666,10 @@ impl Ctx {
             input: input.to_string(),
             repl: String::new(),
         };
+        let refres = self.reference(&req);
+        if self.skip_incomplete(op, &refres) {
+            return;
+        }
         self.log(format!(
             "t={} T{} invoke #{} obj{} {} -> it{}",
             now(),
@@ -662,7 +697,6 @@ impl Ctx {
         });
         self.end_call();
         self.buf = buf;
-        let refres = self.reference(&req);
         let (got, iter) = match r {
             Ok(Ok(i)) => (Ok("Ok(iter)".to_string()), Some(i)),
             Ok(Err(e)) => (Ok(e), None),
@@ -714,6 +748,20 @@ impl Ctx {
             )
         };
         if polls >= POLL_CAP {
+            return None;
+        }
+        if refres.polls.get(polls).map(|s| s.as_str()) == Some("Diverged") {
+            // this step of the iterator does not complete in the reference: not made
+            wlock(&self.world).rec.skipped_incomplete_reference += 1;
+            self.log(format!(
+                "t={} T{} skip #{}.{} it{}: the reference does not complete this poll within the step budget",
+                now(),
+                me,
+                op,
+                k,
+                it
+            ));
+            self.drop_iter(it, false);
             return None;
         }
         if seen_none {
@@ -937,6 +985,9 @@ impl Ctx {
                     repl: repl.clone(),
                 };
                 let expected = self.reference(&req);
+                if self.skip_incomplete(i, &expected) {
+                    return;
+                }
                 self.log(format!(
                     "t={} T{} #{} registers an at-exit call obj{} {}",
                     now(),
